@@ -84,6 +84,7 @@ class Driver:
         self.errors = []
         self.wmap = {}
         self.latest_pull = None
+        self.incarnation = 0
         self._new_incarnation()
         gevent.sleep(0)                     # let the connection greenlets park
 
@@ -202,6 +203,7 @@ class Driver:
     # ------------------------------------------------------------------ greenlet bodies
     def _conn_body(self, w, token, chs):
         c = self.conns[w]
+        inc = self.incarnation
         try:
             ev = {"op": "pull", "w": w, "chs": sorted(chs), "got": 0}
             self._fill()
@@ -214,7 +216,7 @@ class Driver:
             n_before = len(self.wq._waiters)
             ret = c.plugin.rpc_qpull(c.chs_obj)
             # back here either immediately (job available) or after a wake-up
-            if c.token != token:
+            if self.incarnation != inc:
                 return                      # the server was restarted meanwhile: not our world any more
             if self.pending_post is ev:
                 # returned without blocking
@@ -257,6 +259,7 @@ class Driver:
 
     def _client_body(self, k, token, jid):
         cl = self.cl[k]
+        inc = self.incarnation
         try:
             self._fill()
             ev = {"op": "wait", "c": k, "id": jid}
@@ -271,7 +274,7 @@ class Driver:
             self.events.append(ev)
             self.pending_post = ev
             ret = cl["plugin"].rpc_qwait([jid])
-            if cl["token"] != token:
+            if self.incarnation != inc:
                 return
             if self.pending_post is ev:
                 ev["post"] = self.snap()
@@ -377,6 +380,7 @@ class Driver:
     def restart(self, via_file=None):
         """Stop the server, save, start again from the saved state."""
         self._fill()
+        self.incarnation += 1
         for c in self.conns.values():
             c.token += 1                     # old greenlets must not run shutdown on the new server
             if c.greenlet is not None and not c.greenlet.dead:
